@@ -977,6 +977,9 @@ impl Group for C09Sweep {
     }
 }
 
+#[path = "c09_wire.rs"]
+mod wire;
+
 pub fn groups() -> Vec<Box<dyn Group>> {
-    vec![Box::new(C09Sweep)]
+    vec![Box::new(C09Sweep), Box::new(wire::C09Wire)]
 }
